@@ -13,7 +13,9 @@ import (
 
 // C14 – only members of an admin group may change configuration (E3h: bounded-exhaustive identity metadata).
 
-var c14Groups = []string{"", "Admin", "AetherROCAdmin", "AetherROCAdminX", "aetherrocadmin", "T1", "Other", "EnterpriseAdmin"}
+// (group names are free text in an identity token: the last two embed an administrator group's name as a whole word,
+// separated by a space and by a comma; ";" is what the interceptor joins the list with and stays out of the alphabet)
+var c14Groups = []string{"", "Admin", "AetherROCAdmin", "AetherROCAdminX", "aetherrocadmin", "T1", "Other", "EnterpriseAdmin", "Friends of AetherROCAdmin", "readers,EnterpriseAdmin"}
 var c14AdminSettings = []string{"", "AetherROCAdmin", "AetherROCAdmin,EnterpriseAdmin"}
 
 type c14Case struct {
@@ -69,15 +71,23 @@ func c14GroupLists(maxLen int) [][]string {
 func c14Class(c c14Case, permitted bool) string {
 	if permitted {
 		// why was it let in?
-		hasEmpty, sub := len(c.Groups) == 0, false
+		hasEmpty, sub, super := len(c.Groups) == 0, false, false
 		for _, g := range c.Groups {
 			if g == "" {
 				hasEmpty = true
 			} else if strings.Contains(c.Admin, g) {
 				sub = true
+			} else {
+				for _, a := range strings.Split(c.Admin, ",") {
+					if a != "" && strings.Contains(g, a) {
+						super = true
+					}
+				}
 			}
 		}
 		switch {
+		case super && !sub:
+			return "permitted/group-merely-contains-an-admin-group-name"
 		case sub:
 			return "permitted/group-is-a-substring-of-an-admin-group"
 		case hasEmpty:
